@@ -1,10 +1,196 @@
 import Model.Common.Proto
-open Btc
+import Model.Common.ECProto
+import Model.Common.GroupOps
+import Model.C04.Domain
+import Model.C04.Verdict
+import Model.C04.Switch
+import Generated.Backend
+import Generated.BackendSites
+open Btc Btc.C04
 
-/-- line protocol of property C04: see harness/c04.py -/
-def handle : List String → String
-  -- one line per generated module this driver serves, e.g.
-  -- | "gen" :: "VarInt" :: fn :: args => (Gen.VarInt.dispatch fn args).getD "bad-op"
-  | _ => "bad-op"
+/-!
+line protocol of property C04 (harness/c04.py)
+
+  gen Backend <fn> <args…>                      generated functions (`gen.*` validation streams)
+  guard bit <site> <bits> <tag>                 the generated guard alone (`guard.*` streams: spy on the bindings)
+  guard <site> <bits>                           generated guard / established / catches of one delegation site on an
+                                                atom vector (`0`/`1` per field of `Gen.Backend.Atoms`, in order)
+  verdict <api> <py|bind> <class tokens…>       T2 verdict tables
+  dual.<api> …                                  the backend-free model M of the curve-level dual-path APIs (shared EC model)
+-/
+
+def parseEnum {α : Type} [Repr α] (all : List α) (tok : String) : Option α :=
+  all.find? fun c => (reprStr c).endsWith ("." ++ tok)
+
+def bool? : String → Option Bool
+  | "1" => some true
+  | "0" => some false
+  | _ => none
+
+def verdictOp : List String → Option String
+  | ["mult", arm, m, q] => do
+    let m ← parseEnum Scalar.all m; let q ← parseEnum Point.all q
+    pure (if arm == "py" then Mult.py m q else Mult.bind m q).token
+  | ["tweakadd", arm, t, p] => do
+    let t ← parseEnum Tweak.all t; let p ← parseEnum Point.all p
+    pure (if arm == "py" then TweakAdd.py t p else TweakAdd.bind t p).token
+  | ["pubkey", arm, q] => do
+    let q ← parseEnum Scalar.all q
+    pure (if arm == "py" then PubKey.py q else PubKey.bind q).token
+  | ["dh", arm, d, q] => do
+    let d ← parseEnum Scalar.all d; let q ← parseEnum Point.all q
+    pure (if arm == "py" then Dh.py d q else Dh.bind d q).token
+  | ["pfo", arm, hyb, k] => do
+    let hyb ← bool? hyb; let k ← parseEnum Sec.all k
+    pure (if arm == "py" then PointFromOctets.py hyb k else PointFromOctets.bind hyb k).token
+  | ["dsa.assert", arm, m, k, s] => do
+    let m ← parseEnum MsgLen.all m; let k ← parseEnum Key.all k; let s ← parseEnum DsaSig.all s
+    pure (if arm == "py" then DsaAssert.py m k s else DsaAssert.bind m k s).token
+  | ["eng.dsa", arm, m, k, s] => do
+    let m ← parseEnum MsgLen.all m; let k ← parseEnum EngineDsa.EKey.all k; let s ← parseEnum DsaSig.all s
+    pure (if arm == "py" then EngineDsa.py m k s else EngineDsa.bind m k s).token
+  | ["dsa.recover", arm, kid, m, s] => do
+    let kid ← parseEnum KeyId.all kid; let m ← parseEnum MsgLen.all m; let s ← parseEnum DsaSig.all s
+    pure (if arm == "py" then Recover.py kid m s else Recover.bind kid m s).token
+  | ["ssa.assert", arm, k, s] => do
+    let k ← parseEnum XKey.all k; let s ← parseEnum SsaSig.all s
+    pure (if arm == "py" then SsaAssert.py k s else SsaAssert.bind k s).token
+  | ["sp.scan", arm, c] => do
+    let c ← parseEnum SpOutput.all c
+    pure (if arm == "py" then SpScan.py c else SpScan.bind c).token
+  | _ => none
+
+def guardOp : List String → Option String
+  | [site, bits] => do
+    let s ← Gen.BackendSites.SiteId.ofName site
+    let x := Gen.Backend.Atoms.ofBits (bits.toList.map (· == '1'))
+    let b (v : Bool) := if v then "1" else "0"
+    pure s!"ok guard={b (s.guard x)} established={b (s.established x)} catches={b s.catches} domain={b (pre s x)}"
+  | ["bit", site, bits, _tag] => do
+    let s ← Gen.BackendSites.SiteId.ofName site
+    pure (if s.guard (Gen.Backend.Atoms.ofBits (bits.toList.map (· == '1'))) then "ok 1" else "ok 0")
+  | _ => none
+
+/-! ## the model M of the curve-level APIs -/
+namespace M
+open Btc.EC
+
+def C : Curve := secp256k1
+def g : CurveGroup := C.toCurveGroup
+
+def onCurve (Q : EC.Point) : Bool := isOnCurve g Q == some true
+
+def rPt (P : EC.Point) : String := if P.2 = 0 then "inf" else s!"{P.1} {P.2}"
+def rOpt (r : Option EC.Point) : String :=
+  match r with | some P => "ok " ++ rPt P | none => "err value"
+
+def pt? (x y : String) : Option EC.Point := do pure (← parseInt? x, ← parseInt? y)
+
+def points? : List String → Option (List EC.Point)
+  | [] => some []
+  | x :: y :: rest => do pure ((← pt? x y) :: (← points? rest))
+  | _ => none
+
+def terms? : List String → Option (List (Int × EC.Point))
+  | [] => some []
+  | m :: x :: y :: rest => do pure ((← parseInt? m, ← pt? x y) :: (← terms? rest))
+  | _ => none
+
+def xterms? : List String → Option (List (Int × Int))
+  | [] => some []
+  | m :: x :: rest => do pure ((← parseInt? m, ← parseInt? x) :: (← xterms? rest))
+  | _ => none
+
+def add (P Q : EC.Point) : EC.Point := (addAff g P Q).getD INF
+def mul (m : Int) (P : EC.Point) : EC.Point := (mult C m P).getD INF
+def sumPts (l : List EC.Point) : EC.Point := l.foldl add INF
+
+def hexOfPoint (P : EC.Point) (compressed : Bool) : Bytes :=
+  if compressed then (if P.2 % 2 = 1 then 3 else 2) :: beBytes 32 P.1.toNat
+  else 4 :: (beBytes 32 P.1.toNat ++ beBytes 32 P.2.toNat)
+
+/-- `point_from_octets(octets, secp256k1, hybrid=…)` -/
+def pointFromOctets (b : Bytes) (hybrid : Bool) : Option EC.Point :=
+  if b.length ≠ 33 ∧ b.length ≠ 65 then none else
+  let prefix_ := (b.headD 0).toNat
+  if prefix_ = 2 ∨ prefix_ = 3 then
+    if b.length ≠ 33 then none else
+    let x : Int := ofBE (b.drop 1)
+    (yEven g x).map fun y => (x, if prefix_ = 2 then y else C.p - y)
+  else if prefix_ = 4 ∨ (hybrid ∧ (prefix_ = 6 ∨ prefix_ = 7)) then
+    if b.length ≠ 65 then none else
+    let x : Int := ofBE ((b.drop 1).take 32)
+    let y : Int := ofBE (b.drop 33)
+    if y = 0 then none
+    else if prefix_ ≠ 4 ∧ y % 2 ≠ (prefix_ : Int) - 6 then none
+    else if onCurve (x, y) then some (x, y) else none
+  else none
+
+def isX (x : Int) : Bool :=
+  decide (0 ≤ x ∧ x < C.p) && (modPow (y2 g x) ((C.p.toNat - 1) / 2) C.p != C.p - 1)
+
+def op : List String → Option String
+  | ["dual.mult", m, x, y] => do
+    let m ← parseInt? m
+    if x == "-" then pure (rOpt (mult C m C.G)) else
+    let Q ← pt? x y
+    pure (if Q != C.G ∧ !onCurve Q then "err value" else rOpt (mult C m Q))
+  | ["dual.prepared", m, x, y] => do
+    let m ← parseInt? m; let Q ← pt? x y
+    pure (if !onCurve Q ∨ Q.2 = 0 then "err value" else rOpt (mult C m Q))
+  | ["dual.dmult", u, hx, hy, v, qx, qy] => do
+    let H ← pt? hx hy; let Q ← pt? qx qy
+    let u ← parseInt? u; let v ← parseInt? v
+    pure (if !onCurve H ∨ !onCurve Q then "err value" else rOpt (doubleMult C u H v Q))
+  | "dual.mmult" :: rest => do
+    let ts ← terms? rest
+    pure (if ts.any (fun t => !onCurve t.2) then "err value"
+          else if ts.length < 2 then "err value"
+          else "ok " ++ rPt (sumPts (ts.map fun t => mul t.1 t.2)))
+  | "dual.mmultx" :: rest => do
+    let ts ← xterms? rest
+    match ts.mapM (fun t => (yEven g t.2).map fun y => (t.1, ((t.2, y) : EC.Point))) with
+    | none => pure "err value"
+    | some l => pure (if l.length < 2 then "err value" else "ok " ++ rPt (sumPts (l.map fun t => mul t.1 t.2)))
+  | "dual.sum" :: rest => do
+    let ps ← points? rest
+    pure (if ps.any (fun P => !onCurve P) then "err value" else "ok " ++ rPt (sumPts ps))
+  | ["dual.tweakadd", x, y, t] => do
+    let P ← pt? x y
+    let t ← parseInt? t
+    pure (if !onCurve P then "err value" else "ok " ++ rPt (add P (mul t C.G)))
+  | ["dual.tweakchain", x, y, ts] => do
+    let P ← pt? x y
+    let ts ← (ts.splitOn ",").mapM parseInt?
+    pure (if !onCurve P then "err value"
+          else "ok [" ++ ",".intercalate (ts.map fun t => rPt (add P (mul t C.G))) ++ "]")
+  | ["dual.isx", x] => do pure (if isX (← parseInt? x) then "ok True" else "ok False")
+  | ["dual.yeven", x] => do
+    pure (match yEven g (← parseInt? x) with | some y => s!"ok {y}" | none => "err value")
+  | ["dual.pubkey", q, c] => do
+    let P := mul (← parseInt? q) C.G
+    let c ← bool? c
+    pure (if P.2 = 0 then "err value" else "ok " ++ toHex (hexOfPoint P c))
+  | ["dual.pfo", b, h] => do
+    pure (match pointFromOctets (← fromHex? b) (← bool? h) with | some P => "ok " ++ rPt P | none => "err value")
+  | ["dual.sfo", b] => do
+    let b ← fromHex? b
+    pure (match pointFromOctets b false with
+          | some P => "ok " ++ toHex (hexOfPoint P (b.length == 33)) | none => "err value")
+  | ["dual.multsec", b, m] => do
+    let b ← fromHex? b; let m ← parseInt? m
+    pure (match pointFromOctets b false with
+          | some P => rOpt (mult C m P) | none => "err value")
+  | _ => none
+
+end M
+
+def handle (toks : List String) : String :=
+  match toks with
+  | "gen" :: "Backend" :: fn :: args => (Gen.Backend.dispatch fn args).getD "bad-op"
+  | "guard" :: rest => (guardOp rest).getD "bad-op"
+  | "verdict" :: rest => (verdictOp rest).getD "bad-op"
+  | "sites" :: _ => "ok " ++ " ".intercalate (Gen.BackendSites.SiteId.all.map (·.name))
+  | _ => (M.op toks).getD "bad-op"
 
 def main : IO Unit := runLoop handle
